@@ -120,7 +120,7 @@ pub const PRIMS: [&str; 15] = [
 ];
 
 /// Leaf-level types (depth 0).
-pub fn leaves() -> Vec<Ty> {
+pub fn leaves(tier: &str) -> Vec<Ty> {
     let mut v: Vec<Ty> = PRIMS[..14].iter().map(|s| p(s)).collect();
     v.push(Ty::Own);
     v.push(Ty::Borrow);
@@ -133,7 +133,10 @@ pub fn leaves() -> Vec<Ty> {
         v.push(Ty::Enum(n));
     }
     for n in 1..=65usize {
-        v.push(Ty::Flags(n));
+        // quick tier: every representation boundary; thorough: all 1..=65
+        if tier == "thorough" || [1, 2, 7, 8, 9, 15, 16, 17, 31, 32, 33, 63, 64, 65].contains(&n) {
+            v.push(Ty::Flags(n));
+        }
     }
     v
 }
@@ -325,7 +328,7 @@ pub fn depth3(seed: u64, count: usize) -> Vec<Ty> {
 }
 
 pub fn types_for(tier: &str, seed: u64) -> Vec<Ty> {
-    let mut v = leaves();
+    let mut v = leaves(tier);
     v.extend(depth1());
     v.extend(depth2());
     if tier == "thorough" {
@@ -461,7 +464,7 @@ pub fn build(types: &[Ty], sigs: &[Sig]) -> anyhow::Result<Built> {
             Some(t) => format!(" -> {}", defs.expr(t)),
             None => String::new(),
         };
-        funcs.push(format!("  s{k}: func({}){r};", ps.join(", ")));
+        funcs.push(format!("  sg{k}: func({}){r};", ps.join(", ")));
         snames.push(format!("func({}){r}", ps.join(", ")));
     }
     let mut wit = String::from("package verif:abisym;\n\ninterface i {\n  resource res;\n");
@@ -495,7 +498,7 @@ pub fn build(types: &[Ty], sigs: &[Sig]) -> anyhow::Result<Built> {
     }
     let mut sig_funcs = Vec::new();
     for (k, s) in sigs.iter().enumerate() {
-        let f = fs.get(&format!("s{k}")).unwrap().clone();
+        let f = fs.get(&format!("sg{k}")).unwrap().clone();
         sig_funcs.push((s.clone(), snames[k].clone(), f));
     }
     Ok(Built { resolve, type_funcs, sig_funcs })
